@@ -50,10 +50,12 @@ type replayFile struct {
 	Trace     []string           `json:"engine_trace,omitempty"`
 	Native    string             `json:"native_replay,omitempty"`
 	Retry     bool               `json:"retry"`
+	Sched     []gosym.SchedEntry `json:"sched,omitempty"`
+	BaseG     int                `json:"base_g"`
 }
 
 // decide turns harness summaries into KNOWN-FINDING / VIOLATION lines and an exit code.
-func decide(prop, hd string, files []string, pkgName string, sums []*gosym.HarnessSummary, ev *evidence, doReplay bool) int {
+func decide(prop, hd string, files []string, pkgName string, sums []*gosym.HarnessSummary, ev *evidence, doReplay bool, instrument bool) int {
 	known := loadKnown()
 	exit := 0
 	tier := 0
@@ -94,7 +96,7 @@ func decide(prop, hd string, files []string, pkgName string, sums []*gosym.Harne
 		for _, label := range gosym.SortedLabels(s.Violations) {
 			v := s.Violations[label]
 			rf := replayFile{Property: prop, PkgDir: pkgDirOf(hd), Harness: v.Harness, Label: v.Label, Tier: tier, Msg: v.Msg, Pos: v.Pos,
-				Inputs: v.Inputs, Apps: v.Apps, Choices: v.Choices, Decisions: v.Decisions, Trace: v.Trace}
+				Inputs: v.Inputs, Apps: v.Apps, Choices: v.Choices, Decisions: v.Decisions, Trace: v.Trace, Sched: v.Sched, BaseG: v.BaseG}
 			for _, d := range v.Decisions {
 				if d.Kind == "maporder" || d.Kind == "sched" || d.Kind == "select" || d.Kind == "pool" {
 					rf.Retry = true
@@ -115,7 +117,7 @@ func decide(prop, hd string, files []string, pkgName string, sums []*gosym.Harne
 		for _, c := range cands {
 			paths = append(paths, c.path)
 		}
-		results = nativeReplayBatch(pkgDirOf(hd), paths, files, pkgName)
+		results = nativeReplayBatch(pkgDirOf(hd), paths, files, pkgName, instrument)
 		ev.Replays += len(cands)
 	}
 	for i, c := range cands {
@@ -176,7 +178,7 @@ var vhRe = regexp.MustCompile(`(?m)^func (vh_\w+)\(\)`)
 
 // nativeReplayBatch compiles the same harness files natively (go test -overlay, /repo untouched) with the replay
 // implementation of the vf vocabulary and runs the counterexamples; result i starts with "reproduced" on success.
-func nativeReplayBatch(pkgRel string, paths []string, files []string, pkgName string) []string {
+func nativeReplayBatch(pkgRel string, paths []string, files []string, pkgName string, instrument bool) []string {
 	results := make([]string, len(paths))
 	tmp, err := os.MkdirTemp("", "vfreplay")
 	if err != nil {
@@ -189,8 +191,51 @@ func nativeReplayBatch(pkgRel string, paths []string, files []string, pkgName st
 	pkgDir := filepath.Join(repoDir, pkgRel)
 	ov := map[string]string{}
 	var reg []string
+	nid := 0
+	instr := func(virtual, real string) (string, error) {
+		// returns the file to map `virtual` to: the original, or its instrumented copy
+		if !instrument {
+			return real, nil
+		}
+		b, err := os.ReadFile(real)
+		if err != nil {
+			return "", err
+		}
+		nb, err := gosym.Instrument(virtual, b, &nid, nil)
+		if err != nil {
+			return "", err
+		}
+		out := filepath.Join(tmp, fmt.Sprintf("instr%d_%s", nid, filepath.Base(virtual)))
+		return out, os.WriteFile(out, nb, 0o644)
+	}
+	if instrument {
+		dirs := []string{pkgDir}
+		if pkgRel != "" {
+			dirs = append(dirs, repoDir)
+		}
+		for _, d := range dirs {
+			srcs, _ := filepath.Glob(filepath.Join(d, "*.go"))
+			for _, f := range srcs {
+				if strings.HasSuffix(f, "_test.go") {
+					continue
+				}
+				out, err := instr(f, f)
+				if err != nil {
+					results[0] = "instrumentation failed: " + err.Error()
+					return results
+				}
+				ov[f] = out
+			}
+		}
+	}
 	for _, f := range files {
-		ov[filepath.Join(pkgDir, "zz_vh_"+strings.TrimSuffix(filepath.Base(f), ".go")+"_test.go")] = f
+		virtual := filepath.Join(pkgDir, "zz_vh_"+strings.TrimSuffix(filepath.Base(f), ".go")+"_test.go")
+		out, err := instr(virtual, f)
+		if err != nil {
+			results[0] = "instrumentation failed: " + err.Error()
+			return results
+		}
+		ov[virtual] = out
 		b, _ := os.ReadFile(f)
 		for _, m := range vhRe.FindAllSubmatch(b, -1) {
 			reg = append(reg, fmt.Sprintf("\t%q: %s,", m[1], m[1]))
@@ -357,7 +402,7 @@ func cmdReplay(args []string) int {
 		fmt.Fprintln(os.Stderr, err)
 		return 2
 	}
-	out := nativeReplayBatch(rf.PkgDir, []string{args[len(args)-1]}, files, pkgName)[0]
+	out := nativeReplayBatch(rf.PkgDir, []string{args[len(args)-1]}, files, pkgName, wantsInstrument(files))[0]
 	ok := strings.HasPrefix(out, "reproduced")
 	fmt.Println(out)
 	if ok {
@@ -365,4 +410,15 @@ func cmdReplay(args []string) int {
 		return 1
 	}
 	return 0
+}
+
+// wantsInstrument: a harness file carrying the marker `// vf:instrument` asks for statement-level scheduling points.
+func wantsInstrument(files []string) bool {
+	for _, f := range files {
+		b, err := os.ReadFile(f)
+		if err == nil && strings.Contains(string(b), "// vf:instrument") {
+			return true
+		}
+	}
+	return false
 }
